@@ -4,10 +4,25 @@ Proof: lean/EdbVerif/Props/C20.lean over Model/Topo.lean.
 Tie: the real ``sort_ex`` and the model's ``sortEx`` are run on the same graphs
 (exhaustive small scope + random), outputs compared; independently the
 property's own conclusions are evaluated on the real output (oracle).
+
+Determinism ("the result is a function of the input, the input including the
+caller's iteration order"): besides the in-process runs, a batch of graphs is
+built the way the real callers build them (OrderedSets through the
+``DepGraphEntry`` constructor, filled-in-afterwards OrderedSets, attribute
+assignment, lists; str / tuple-of-str keys) in >= 3 CHILD INTERPRETERS that
+differ only in PYTHONHASHSEED (props/c20_child.py).  Their outcomes must be
+byte-identical to each other and to the Lean model run on the edges in the
+GIVEN order – the model is what pins the expected order.
 """
 from __future__ import annotations
 
+import hashlib
 import itertools
+import json
+import os
+import subprocess
+import sys
+import tempfile
 
 from lib import core
 
@@ -32,8 +47,10 @@ def to_line(case) -> str:
 
 def build_real(case, topological, OrderedSet, mode):
     """mode 0: OrderedSet (keeps order + dedups), 1: list (keeps dups; the
-    real loop's own OrderedSet dedups), 2: real `set` (iteration order read
-    back and handed to the model)."""
+    real loop's own OrderedSet dedups): ORDERED inputs – the model is handed the
+    order the caller GAVE to the constructor, never what the entry stores.
+    2: real `set`: the caller never had an order; the iteration order is read
+    back from the entry and handed to the model."""
     ents = case[1]
     g = {}
     seen_order = []
@@ -49,8 +66,11 @@ def build_real(case, topological, OrderedSet, mode):
         e = topological.DepGraphEntry(item=('item', k), deps=mk(d), merge=mk(m),
                                       loop_control=mk(c), weak_deps=mk(w))
         g[k] = e
-        seen_order.append((k, list(e.weak_deps), None if e.merge is None else list(e.merge),
-                           list(e.deps), list(e.loop_control)))
+        if mode == 2:
+            seen_order.append((k, list(e.weak_deps), None if e.merge is None else list(e.merge),
+                               list(e.deps), list(e.loop_control)))
+        else:
+            seen_order.append((k, list(w), None if m is None else list(m), list(d), list(c)))
     return g, (case[0], seen_order)
 
 
@@ -110,6 +130,8 @@ def oracle(seen_case, out: str, order):
             missing |= x not in ks
     bad = []
     kind = out.split(' ')[0]
+    if kind == 'exc':
+        return ['sort_ex raised an unexpected exception: ' + out[4:]]
     if missing and not allow:
         if kind != 'unres':
             bad.append('missing reference not reported')
@@ -198,6 +220,169 @@ def gen_large(rng, n_cases):
         yield (rng.random() < 0.8, ents)
 
 
+def gen_callers(rng, n_cases):
+    """Graphs shaped like the ones the real callers build, each with at least
+    two dependencies of one item whose relative order no other edge forces –
+    the place where a container's iteration order decides the answer."""
+    for _ in range(n_cases):
+        kind = rng.choice(['fan', 'inherit', 'cycles', 'softconf', 'delta'])
+        n = rng.randint(3, 9)
+        keys = rng.sample(range(0, 200), n + 1)
+        root, rest = keys[0], keys[1:]
+        ents = {k: [k, [], None, [], []] for k in keys}       # k, w, m, d, c
+        allow = True
+        if kind == 'fan':
+            # one item over several mutually unconstrained deps (hard / merge / soft mix)
+            for t in rest:
+                r = rng.random()
+                if r < 0.6:
+                    ents[root][3].append(t)
+                elif r < 0.8:
+                    ents[root][2] = (ents[root][2] or []) + [t]
+                else:
+                    ents[root][1].append(t)
+            if rng.random() < 0.4:
+                base = rest[-1]
+                for t in rest[:-1]:
+                    if rng.random() < 0.5:
+                        ents[t][3].append(base)
+        elif kind == 'inherit':
+            # sort_by_inheritance / ordered_descendants: bases of each item, one base outside the graph
+            for i, k in enumerate(keys):
+                later = keys[i + 1:]
+                if later:
+                    ents[k][3] = rng.sample(later, min(len(later), rng.randint(1, 3)))
+                if rng.random() < 0.3:
+                    ents[k][3].insert(rng.randint(0, len(ents[k][3])), 999)
+            allow = True
+        elif kind == 'cycles':
+            # independent hard 2-cycles below one root: which one is reported?
+            pairs = [(rest[i], rest[i + 1]) for i in range(0, len(rest) - 1, 2)]
+            for a, b in pairs:
+                ents[root][3].append(a)
+                (ents[a][3] if rng.random() < 0.7 else ents[a][4]).append(b)
+                ents[b][3].append(a)
+        elif kind == 'softconf':
+            # conflicting preferences: which soft edge loses?
+            for t in rest:
+                ents[root][1].append(t)
+                if rng.random() < 0.6:
+                    ents[t][1].append(root)
+                if rng.random() < 0.4:
+                    ents[t][1].append(rng.choice(rest))
+            if rng.random() < 0.5:
+                ents[rest[0]][3].append(rest[-1])
+        else:
+            # schema/ordering.py: an ALTER depending on many CREATEs, a few preferences between them
+            for t in rest:
+                ents[root][3].append(t)
+            for _ in range(rng.randint(1, 3)):
+                a, b = rng.sample(rest, 2)
+                ents[a][1].append(b)
+        order = list(keys)
+        rng.shuffle(order)
+        case = (allow, [tuple(ents[k]) for k in order])
+        yield case, kind
+        # the same logical graph, every collection given in another insertion order:
+        # the answer has to FOLLOW the given order exactly as the model says
+        def sh(l):
+            if l is None:
+                return None
+            l = list(l)
+            rng.shuffle(l)
+            return l
+        yield (allow, [(k, sh(w), sh(m), sh(d), sh(c)) for (k, w, m, d, c) in case[1]]), kind + '/perm'
+
+
+# --------------------------------------------- cross-process determinism oracle
+CHILD = os.path.join(os.path.dirname(os.path.abspath(__file__)), 'c20_child.py')
+MAX_CORR = 40        # disagreements are all counted; this many are written to the replay file
+STYLES = ['ctor'] * 8 + ['fill'] * 5 + ['attr'] * 4 + ['list'] * 3
+KEYSTYLES = ['str'] * 9 + ['tuple'] * 9 + ['int'] * 2
+
+
+def xproc_run(xcases, seeds):
+    """Run the batch through the real sort_ex in one fresh interpreter per
+    PYTHONHASHSEED (all started together).  -> {seed: [outcome, ...]}"""
+    payload = json.dumps({'cases': [
+        {'allow': c[0], 'ents': [list(e) for e in c[1]], 'style': st, 'keys': ks}
+        for (c, st, ks, _stream) in xcases]})
+    with tempfile.NamedTemporaryFile('w', suffix='.json', prefix='c20-batch-') as fin:
+        fin.write(payload)
+        fin.flush()
+        procs = []
+        for sd in seeds:
+            f = open(fin.name, 'r')          # own file description per child (own offset)
+            env = dict(os.environ, PYTHONHASHSEED=str(sd))
+            procs.append((sd, f, subprocess.Popen(
+                [sys.executable, CHILD], stdin=f, stdout=subprocess.PIPE,
+                stderr=subprocess.PIPE, text=True, env=env)))
+        res = {}
+        for sd, f, pr in procs:
+            try:
+                out, err = pr.communicate(timeout=1800)
+            except subprocess.TimeoutExpired as e:
+                pr.kill()
+                raise core.Infra(f'C20 child interpreter (PYTHONHASHSEED={sd}) timed out') from e
+            finally:
+                f.close()
+            if pr.returncode != 0:
+                raise core.Infra(f'C20 child interpreter (PYTHONHASHSEED={sd}) failed: {err[-1500:]}')
+            try:
+                r = json.loads(out)
+            except ValueError as e:
+                raise core.Infra(f'C20 child interpreter (PYTHONHASHSEED={sd}): bad output {out[:300]!r}') from e
+            if len(r) != len(xcases):
+                raise core.Infra(f'C20 child returned {len(r)} outcomes for {len(xcases)} cases')
+            res[str(sd)] = r
+    return res
+
+
+def case_size(c):
+    return (sum(len(e[1]) + len(e[2] or []) + len(e[3]) + len(e[4]) for e in c[1]), len(c[1]))
+
+
+def xproc_shrink(xcase, seeds, rounds=12):
+    """Greedy shrinking of a hash-seed dependent case: each round tries all
+    single deletions (one entry / one edge) in ONE batch of child interpreters."""
+    (case, st, ks, stream) = xcase
+    for _ in range(rounds):
+        allow, ents = case
+        cands = []
+        for i in range(len(ents)):
+            if len(ents) > 1:
+                gone = ents[i][0]
+                rest = [(k, [x for x in w if x != gone], None if m is None else [x for x in m if x != gone],
+                         [x for x in d if x != gone], [x for x in c if x != gone])
+                        for j, (k, w, m, d, c) in enumerate(ents) if j != i]
+                cands.append((allow, rest))
+            k, w, m, d, c = ents[i]
+            for fld, l in ((1, w), (2, m or []), (3, d), (4, c)):
+                for j in range(len(l)):
+                    e = [k, list(w), None if m is None else list(m), list(d), list(c)]
+                    e[fld] = l[:j] + l[j + 1:]
+                    cands.append((allow, ents[:i] + [tuple(e)] + ents[i + 1:]))
+        if not cands:
+            break
+        res = xproc_run([(c, st, ks, stream) for c in cands], seeds)
+        pick = None
+        for j, c in enumerate(cands):
+            if len({res[str(sd)][j] for sd in seeds}) > 1:
+                if pick is None or case_size(c) < case_size(cands[pick]):
+                    pick = j
+        if pick is None:
+            break
+        case = cands[pick]
+    return (case, st, ks, stream)
+
+
+def parse_order(out):
+    if not out.startswith('ok '):
+        return None
+    body = out[3:]
+    return [] if body == '-' else [int(x) for x in body.split(',')]
+
+
 # ---------------------------------------------------------------------- run
 def run(ctx: core.Ctx):
     from edb.common import topological
@@ -206,16 +391,23 @@ def run(ctx: core.Ctx):
     proved = ctx.proof_stage(PROPS, ['EdbVerif.Props.C20', 'Driver.C20'], required=REQUIRED)
     ctx.log('proof stage:', 'ok' if proved else ctx.proof['broken'])
 
-    cases = []
+    cases = []          # in-process:    (case, mode, stream)
+    xcases = []         # cross-process: (case, style, keystyle, stream)
+    rng = ctx.rng
+    seeds = ['0', '1', str(rng.randrange(2, 2 ** 32))]
     if ctx.replay:
-        import json
         rp = json.load(open(ctx.replay))
         for f in rp['failures']:
-            if isinstance(f.get('detail'), dict) and 'case' in f['detail']:
-                c = f['detail']['case']
-                cases.append(((c[0], [tuple(e) for e in c[1]]), 1, 'replay'))
+            d = f.get('detail')
+            if not (isinstance(d, dict) and 'case' in d):
+                continue
+            c = (d['case'][0], [tuple(e) for e in d['case'][1]])
+            if d.get('xproc'):
+                xcases.append((c, d['style'], d['keys'], 'replay'))
+                seeds = [str(x) for x in d['seeds']]
+            else:
+                cases.append((c, 1, 'replay'))
     else:
-        rng = ctx.rng
         n_ex = 0
         for i, c in enumerate(gen_exhaustive2()):
             if ctx.quick() and i % 4 != ctx.seed % 4:
@@ -226,6 +418,13 @@ def run(ctx: core.Ctx):
             cases.append((c, rng.choice([0, 1, 2]), 'small'))
         for c in gen_large(rng, ctx.budget(2000, 40000)):
             cases.append((c, rng.choice([0, 1, 2]), 'large'))
+        # cross-process batch: ordered inputs only, built the way the real callers do
+        for c, kind in gen_callers(rng, ctx.budget(400, 6000)):
+            xcases.append((c, rng.choice(STYLES), rng.choice(KEYSTYLES), 'callers:' + kind))
+        for c in gen_small(rng, ctx.budget(2000, 40000)):
+            xcases.append((c, rng.choice(STYLES), rng.choice(KEYSTYLES), 'small'))
+        for c in gen_large(rng, ctx.budget(200, 5000)):
+            xcases.append((c, rng.choice(STYLES), rng.choice(KEYSTYLES), 'large'))
 
     lines, reals, seen_cases = [], [], []
     hist = {'ok': 0, 'cycle': 0, 'unres': 0}
@@ -242,9 +441,32 @@ def run(ctx: core.Ctx):
         streams[stream] = streams.get(stream, 0) + 1
     ctx.log(f'{len(cases)} cases through real sort_ex; outcomes {hist}')
 
-    model = ctx.driver('C20', lines) if proved or True else []
-    if len(model) != len(lines):
-        raise core.Infra(f'driver returned {len(model)} lines for {len(lines)}')
+    # the same batch in >= 3 fresh interpreters differing only in PYTHONHASHSEED
+    xres = xproc_run(xcases, seeds) if xcases else {}
+    if xcases and not ctx.replay:
+        # a hash-seed dependent case?  shrink the smallest one right away so that the
+        # shrunk graph goes through the one model run below like every other case
+        nd = [i for i in range(len(xcases)) if len({xres[sd][i] for sd in seeds}) > 1]
+        if nd:
+            i0 = min(nd, key=lambda i: (case_size(xcases[i][0]), i))
+            try:
+                small = xproc_shrink(xcases[i0], seeds)
+                if small[0] != xcases[i0][0]:
+                    r1 = xproc_run([small], seeds)
+                    xcases.append((small[0], small[1], small[2], 'shrunk'))
+                    for sd in seeds:
+                        xres[sd].append(r1[sd][0])
+            except core.Infra:
+                pass
+    xlines = [to_line(c) for (c, _st, _ks, _s) in xcases]     # edges in the GIVEN order
+    ctx.log(f'{len(xcases)} cases through real sort_ex in {len(seeds)} child interpreters '
+            f'(PYTHONHASHSEED {",".join(seeds)})')
+
+    model = ctx.driver('C20', lines + xlines)
+    if len(model) != len(lines) + len(xlines):
+        raise core.Infra(f'driver returned {len(model)} lines for {len(lines) + len(xlines)}')
+    xmodel = model[len(lines):]
+    model = model[:len(lines)]
 
     n_dis = 0
     nontrivial = 0
@@ -260,36 +482,113 @@ def run(ctx: core.Ctx):
             ctx.fail(f'oracle:{line}', b, {'case': seen, 'real': out})
         if out != mout:
             n_dis += 1
-            if not bad:
+            if not bad and n_dis <= MAX_CORR:
                 # correspondence broken, property still holds on this input
                 ctx.fail(f'corr:{line}', 'model and implementation disagree (property holds on this input)',
                          {'case': seen, 'real': out, 'model': mout,
                           'stream': 'sort_ex vs EdbVerif.Topo.sortEx'}, no_input=True)
+
+    # ---- cross-process verdicts
+    x_hist = {'ok': 0, 'cycle': 0, 'unres': 0, 'exc': 0}
+    x_streams, x_styles, x_keys = {}, {}, {}
+    x_nondet, x_dis, x_nontrivial = [], 0, 0
+    x_distinct = set()
+    for i, ((case, st, ks, stream), line, mout) in enumerate(zip(xcases, xlines, xmodel)):
+        outs = {sd: xres[sd][i] for sd in seeds}
+        vals = sorted(set(outs.values()))
+        x_hist[vals[0].split(' ')[0]] = x_hist.get(vals[0].split(' ')[0], 0) + 1
+        x_streams[stream] = x_streams.get(stream, 0) + 1
+        x_styles[st] = x_styles.get(st, 0) + 1
+        x_keys[ks] = x_keys.get(ks, 0) + 1
+        if case_size(case)[0] >= 2 and (line, st, ks) not in x_distinct:
+            x_distinct.add((line, st, ks))
+            x_nontrivial += 1
+        bad = []
+        for v in vals:
+            for b in oracle(case, v, parse_order(v)):
+                if b not in bad:
+                    bad.append(b)
+        tag = f'{line}|{st}|{ks}'
+        for b in bad:
+            ctx.fail(f'oracle:{tag}', b, {'xproc': True, 'case': case, 'style': st, 'keys': ks,
+                                          'seeds': seeds, 'outcomes': outs, 'model': mout})
+        if len(vals) > 1:
+            x_nondet.append(i)
+        elif vals[0] != mout:
+            x_dis += 1
+            if not bad and x_dis <= MAX_CORR:
+                ctx.fail(f'corr:xproc:{tag}',
+                         'every process agrees but the result does not follow the caller\'s given edge order '
+                         'as the model says (property holds on this input)',
+                         {'xproc': True, 'case': case, 'style': st, 'keys': ks, 'seeds': seeds,
+                          'real': vals[0], 'model': mout,
+                          'stream': 'sort_ex (child interpreters) vs EdbVerif.Topo.sortEx'}, no_input=True)
+    if x_nondet:
+        # smallest graphs first
+        x_nondet.sort(key=lambda i: (case_size(xcases[i][0]), i))
+        for i in x_nondet[:8]:
+            (case, st, ks, stream) = xcases[i]
+            outs = {sd: xres[sd][i] for sd in seeds}
+            line = xlines[i]
+            h = hashlib.sha1(f'{line}|{st}|{ks}'.encode()).hexdigest()[:12]
+            by_out = {}
+            for sd in seeds:
+                by_out.setdefault(outs[sd], []).append(sd)
+            ctx.fail(f'nondet:order:{h}',
+                     'the result depends on the process: the same graph with the same given edge order gives '
+                     + '; '.join(f'[{o}] under PYTHONHASHSEED {",".join(v)}' for o, v in by_out.items())
+                     + f' (model, edges consumed in the given order: [{xmodel[i]}])',
+                     {'xproc': True, 'case': case, 'style': st, 'keys': ks, 'seeds': seeds,
+                      'outcomes': outs, 'model': xmodel[i], 'line': line, 'stream': stream,
+                      'how': 'props/c20_child.py builds the graph (style/keys as recorded) and runs the real '
+                             'sort_ex once per PYTHONHASHSEED in a fresh interpreter'})
+    if xcases:
+        ctx.log(f'cross-process: {len(x_nondet)} hash-seed dependent, {x_dis} deviating from the given order')
     if not proved:
         ctx.proof_broken_verdict()
 
     ctx.cov.update({
-        'evaluations': len(cases),
-        'distinct_nontrivial': nontrivial,
+        'evaluations': len(cases) + len(xcases) * len(seeds),
+        'distinct_nontrivial': nontrivial + x_nontrivial,
         'rule': 'graphs over 4 edge kinds: exhaustive 2-node graphs (all 2^16 edge sets x 2 key orders; '
                 'quick tier takes the quarter selected by seed), random 1-4 node graphs with dangling refs, '
                 'random 5-40 node graphs with planted hard/weak back edges; containers are OrderedSet/list/set. '
-                'non-trivial = at least one edge; distinct = distinct protocol line',
-        'samples': [lines[i] + ' => ' + reals[i][0] for i in
-                    sorted(set([0, len(lines) // 3, len(lines) // 2, len(lines) - 1]))],
+                'non-trivial = at least one edge; distinct = distinct protocol line. '
+                'cross-process batch: caller-shaped graphs (fan-out, inheritance, independent cycles, soft '
+                'conflicts, delta-like; each also with every collection re-ordered), small and large random '
+                'graphs; non-trivial = at least two edges; distinct = distinct (line, build style, key style)',
+        'samples': ([lines[i] + ' => ' + reals[i][0] for i in
+                     sorted(set([0, len(lines) // 3, len(lines) // 2, len(lines) - 1]))] if lines else []) +
+                   ([f'{xlines[i]} [{xcases[i][1]}/{xcases[i][2]} keys, PYTHONHASHSEED {"/".join(seeds)}] => '
+                     f'{xres[seeds[0]][i]}'
+                     for i in sorted(set([0, len(xlines) // 2, len(xlines) - 1]))] if xlines else []),
         'outcome_histogram': hist, 'streams': streams,
-        'disagreements_model_vs_impl': n_dis,
+        'disagreements_model_vs_impl': n_dis + x_dis,
+        'cross_process': {
+            'hash_seeds': seeds, 'cases': len(xcases), 'distinct_nontrivial': x_nontrivial,
+            'streams': x_streams, 'build_styles': x_styles, 'key_styles': x_keys,
+            'outcome_histogram': x_hist, 'hash_seed_dependent': len(x_nondet),
+            'deviating_from_given_order': x_dis,
+            'compared': 'outcome of every child interpreter against every other AND against the Lean model '
+                        'run on the edges in the order the caller gave them',
+        },
         'exhaustive': False,
         'correspondence': 'real edb.common.topological.sort_ex vs Lean EdbVerif.Topo.sortEx, output compared '
                           'exactly (order / CycleError.item+path / unresolved dep+item)',
     })
     ctx.assumptions += [
-        'graph iteration order (dict order, set iteration order) is part of the input: determinism is '
-        'relative to it',
+        'graph iteration order (dict order, iteration order of the dependency collections the caller hands '
+        'over) is part of the input: determinism is relative to it.  For ORDERED collections (OrderedSet, '
+        'list) that order is what the caller wrote, and the check requires the result to follow it in every '
+        'process; for plain `set` inputs (edgeql/compiler/viewgen.py, the pre-normalisation entries of '
+        'edgeql/declarative.py) the caller never had an order, so those are only checked in-process against '
+        'the iteration order read back from the entry and are excluded from the cross-process oracle',
         'the property\'s "hard dependencies" are read as deps ∪ merge, and cycles are taken over '
         'deps ∪ merge ∪ loop_control restricted to present keys',
     ]
     ctx.trusted_base += [
         'hand-written model EdbVerif/Model/Topo.lean of sort_ex; tied by the differential run above',
-        'harness/props/c20.py generators, oracle and canonicalisation',
+        'harness/props/c20.py generators, oracle and canonicalisation; harness/props/c20_child.py '
+        '(graph construction in the styles of the real callers, key renaming nat <-> str / tuple of str)',
+        'PYTHONHASHSEED 0 / 1 / one drawn from VERIF_SEED stand for "different compiler worker processes"',
     ]
